@@ -201,10 +201,13 @@ def getattr (ct : ClassTable) (objs : Oid → Option Obj) (x : Oid) (name : Name
 /-! ### Pickling of the created *classes* (`MetaCreator.__reduce__`, `meta_create`, creator.py:130-140) -/
 
 /-- The module `deap.creator`: the classes that exist (`ClassTable`, index = identity of the class
-object) and the names bound in the module's globals (`globals()[name] = class_`). -/
+object), the names bound in the module's globals (`globals()[name] = class_`), and every class
+object's own `__name__` (`names`, parallel to `classes`; a class keeps its name when the module
+attribute is deleted or rebound). -/
 structure Module where
   classes : ClassTable
   bound : List (Name × ClsId)
+  names : List Name := []
 
 /-- `MetaCreator.__reduce__` (creator.py:130-131): a class pickles BY VALUE as
 `(meta_create, (name, base, dct))`; in the model `(name, ClassInfo)` (base and dct determine kind,
@@ -214,10 +217,13 @@ def classReduce (m : Module) (c : ClsId) (name : Name) : Option (Name × ClassIn
 
 /-- `meta_create(name, base, dct)` (creator.py:137-140): ALWAYS builds a new class from the pickled
 description and rebinds the name; whatever was bound to that name before is neither consulted nor
-changed (the old class object lives on, so do its instances). -/
+changed (the old class object lives on, so do its instances).  `creator.create(name, base, **kargs)`
+(creator.py:143-171) has the same effect on the module — `globals()[name] = meta(name, (base,), dict)`
+after a RuntimeWarning when the name is already bound — so it is this function too. -/
 def metaCreate (m : Module) (name : Name) (ci : ClassInfo) : Module × ClsId :=
   ({ classes := m.classes ++ [ci],
-     bound := (name, m.classes.length) :: m.bound.filter (fun p => p.1 != name) },
+     bound := (name, m.classes.length) :: m.bound.filter (fun p => p.1 != name),
+     names := m.names ++ [name] },
    m.classes.length)
 
 /-! ### `copy.deepcopy` with the hooks of DEAP -/
@@ -441,5 +447,296 @@ def decorate {F A : Type} (tb : List (Name × Partial F A)) (alias : Name) (ds :
   match lookup alias tb with
   | none => none
   | some p => some (register tb alias (ds.foldl (fun f d => d f) p.func) p.args p.kw)
+
+/-! ### The `deap.creator` namespace between dump and load
+
+An object of a created class pickles its class BY VALUE: `copyreg` writes the class through
+`MetaCreator.__reduce__` = `(meta_create, (name, base, dct))` (creator.py:130-140), and `dct` holds the
+classes of the per-instance attributes, which pickle the same way.  Classes that were not made by the
+creator (`list`, `dict`, `gp.Primitive`, …) pickle by reference: every interpreter has them.  In the
+model the first `nb` entries of every class table are those by-reference classes.  Unpickling
+re-creates every other class of the dump from its pickled triple — `meta_create` never looks at what
+the loading module has bound to the name — and builds the objects as instances of the re-created
+classes. -/
+
+/-- `del creator.<name>`: the class object lives on (its instances keep it), the name is gone. -/
+def unbind (m : Module) (name : Name) : Module :=
+  { m with bound := m.bound.filter (fun p => p.1 != name) }
+
+/-- What a script can do to the namespace between a dump and a load. -/
+inductive NsOp where
+  /-- `creator.create(name, base, **kargs)`; the classes among `kargs` exist already (they are
+  evaluated before the call), re-creation over a bound name only warns. -/
+  | create (name : Name) (ci : ClassInfo)
+  /-- `del creator.<name>` -/
+  | delete (name : Name)
+
+def nsStep (m : Module) : NsOp → Module
+  | .create name ci =>
+    if ci.dictInst.all (fun p => decide (p.2 < m.classes.length)) then (metaCreate m name ci).1 else m
+  | .delete name => unbind m name
+
+def nsRun (m : Module) (ops : List NsOp) : Module := ops.foldl nsStep m
+
+/-- A pickle of an object graph: the dumping interpreter's classes by value (`classes`/`names`; the
+first `nb` are by-reference classes), and the object tree. -/
+structure Pickle where
+  nb : Nat
+  classes : ClassTable
+  names : List Name
+  root : PT
+
+/-- `pickle.dumps(v)` in the module `m`. -/
+def dumpP (m : Module) (nb : Nat) (objs : Oid → Option Obj) (fuel : Nat) (v : Val) : Option Pickle :=
+  match serialise objs fuel v with
+  | none => none
+  | some t => some { nb := nb, classes := m.classes, names := m.names, root := t }
+
+/-- Where a class of the dump ends up in a loading module with `off` classes: by-reference classes
+stay, the `i`-th by-value class becomes the `i`-th class created by the load. -/
+def trLoad (nb off : Nat) (c : ClsId) : ClsId := if c < nb then c else off + (c - nb)
+
+/-- The pickled `dct` with the classes of the per-instance attributes translated. -/
+def retagInfo (tr : ClsId → ClsId) (ci : ClassInfo) : ClassInfo :=
+  { ci with dictInst := ci.dictInst.map (fun p => (p.1, tr p.2)) }
+
+mutual
+def mapClsPT (tr : ClsId → ClsId) : PT → PT
+  | .atom a => .atom a
+  | .node c m is names vs => .node (tr c) m (mapClsPTs tr is) names (mapClsPTs tr vs)
+def mapClsPTs (tr : ClsId → ClsId) : List PT → List PT
+  | [] => []
+  | t :: ts => mapClsPT tr t :: mapClsPTs tr ts
+end
+
+mutual
+/-- The classes the pickler meets as classes of objects. -/
+def usedPT : PT → List ClsId
+  | .atom _ => []
+  | .node c _ is _ vs => c :: (usedPTs is ++ usedPTs vs)
+def usedPTs : List PT → List ClsId
+  | [] => []
+  | t :: ts => usedPT t ++ usedPTs ts
+end
+
+/-- … closed under "is the class of a per-instance attribute" (the pickled `dct` mentions it).
+Classes mention earlier classes only, so one pass from the newest class down suffices. -/
+def closeUsed (ct : ClassTable) : Nat → List ClsId → List ClsId
+  | 0, u => u
+  | c + 1, u =>
+    closeUsed ct c (if u.contains c then
+        match ct[c]? with
+        | some ci => u ++ ci.dictInst.map (·.2)
+        | none => u
+      else u)
+
+/-- One `meta_create(name, base, dct)` executed by the load (`met`), or — for a class of the dumping
+module that this pickle does not mention — just its record, which nothing refers to. -/
+def recreate (tr : ClsId → ClsId) (met : Bool) (m : Module) (name : Name) (ci : ClassInfo) : Module :=
+  let m1 := (metaCreate m name (retagInfo tr ci)).1
+  if met then m1 else { m1 with bound := m.bound }
+
+def recreateAll (tr : ClsId → ClsId) (used : List ClsId) (names : List Name) :
+    Module → ClsId → List ClassInfo → Module
+  | m, _, [] => m
+  | m, c, ci :: r =>
+    recreateAll tr used names (recreate tr (used.contains c) m ((names[c]?).getD 0) ci) (c + 1) r
+
+/-- The classes part of `pickle.loads` in the module `m'`. -/
+def loadClasses (m' : Module) (P : Pickle) : Module :=
+  recreateAll (trLoad P.nb m'.classes.length)
+    (closeUsed P.classes P.classes.length (usedPT P.root)) P.names m' P.nb (P.classes.drop P.nb)
+
+/-- `pickle.loads` in the module `m'`, the objects going to the heap `(objs0, next0)`. -/
+def loadP (m' : Module) (P : Pickle) (objs0 : Oid → Option Obj) (next0 : Nat) :
+    Option (Module × (Oid → Option Obj) × Nat × Val) :=
+  let m'' := loadClasses m' P
+  match rebuild m''.classes { objs := objs0, next := next0, memo := [] }
+      (mapClsPT (trLoad P.nb m'.classes.length) P.root) with
+  | none => none
+  | some (st, v') => some (m'', st.objs, st.next, v')
+
+/-- An identity-free description of a class: its name, base kind, the classes of its per-instance
+attributes (described the same way) and its class-level attributes — what
+`MetaCreator.__reduce__` writes. -/
+inductive CDesc where
+  | mk (name : Name) (kind : Kind) (inst : List (Name × CDesc)) (cls : List (Name × Val))
+
+/-- One entry of the pickled `dct`: the attribute name and the description of its class. -/
+def descEntry (r : ClsId → Option CDesc) (p : Name × ClsId) : Option (Name × CDesc) :=
+  match r p.2 with
+  | none => none
+  | some d => some (p.1, d)
+
+def describe (ct : ClassTable) (names : List Name) : Nat → ClsId → Option CDesc
+  | 0, _ => none
+  | n + 1, c =>
+    match ct[c]?, names[c]? with
+    | some ci, some nm =>
+      match mapOpt (descEntry (describe ct names n)) ci.dictInst with
+      | none => none
+      | some ds => some (.mk nm ci.kind ds ci.dictCls)
+    | _, _ => none
+
+/-! ### GP node objects: `__getstate__` / `__setstate__` over the slots, `renameArguments`
+
+`gp.Primitive.__slots__ = ('name', 'arity', 'args', 'ret', 'seq')`, `gp.Terminal.__slots__ =
+('name', 'value', 'ret', 'conv_fct')` (gp.py:196, 234).  `__getstate__` (gp.py:211-215, 253-257) is the
+dict of the slots that are set; `__setstate__` (gp.py:217-219, 259-261) sets every entry on a blank
+instance.  `PrimitiveSetTyped.renameArguments` (gp.py:343-354) changes the `value` of an argument
+terminal and its key in `mapping` — never its `name`, so `name = str(value)` holds only until the
+first renaming. -/
+namespace Gp
+
+inductive Slot where
+  | name | arity | args | ret | seq | value | conv
+deriving DecidableEq, Repr
+
+/-- A node object: every slot holds an atom (interned string, type object, number) or is unset. -/
+inductive Node where
+  | prim (name arity args ret seq : Option Int)
+  | term (name value ret conv : Option Int)
+deriving DecidableEq, Repr
+
+def entry (s : Slot) : Option Int → List (Slot × Int)
+  | none => []
+  | some a => [(s, a)]
+
+/-- `dict((slot, getattr(self, slot)) for slot in type(self).__slots__ if hasattr(self, slot))` -/
+def getstate : Node → List (Slot × Int)
+  | .prim n a g r q => entry .name n ++ entry .arity a ++ entry .args g ++ entry .ret r ++ entry .seq q
+  | .term n v r c => entry .name n ++ entry .value v ++ entry .ret r ++ entry .conv c
+
+/-- `object.__new__(cls)` (`copyreg.__newobj__` / `_reconstructor`): the same class, no slot set. -/
+def blank : Node → Node
+  | .prim .. => .prim none none none none none
+  | .term .. => .term none none none none
+
+/-- `setattr(self, name, value)`; a name that is not a slot of the class has no slot to go to (it
+would need a `__dict__`, which these classes do not have) and is left out. -/
+def setSlot : Node → Slot × Int → Node
+  | .prim n a g r q, (s, x) =>
+    match s with
+    | .name => .prim (some x) a g r q
+    | .arity => .prim n (some x) g r q
+    | .args => .prim n a (some x) r q
+    | .ret => .prim n a g (some x) q
+    | .seq => .prim n a g r (some x)
+    | _ => .prim n a g r q
+  | .term n v r c, (s, x) =>
+    match s with
+    | .name => .term (some x) v r c
+    | .value => .term n (some x) r c
+    | .ret => .term n v (some x) c
+    | .conv => .term n v r (some x)
+    | _ => .term n v r c
+
+/-- `__setstate__`: `for name, value in state.items(): setattr(self, name, value)`. -/
+def setstate (n : Node) (state : List (Slot × Int)) : Node := state.foldl setSlot n
+
+/-- What the pickle stream holds for one node: its class (by reference) and its state. -/
+structure NodePickle where
+  isPrim : Bool
+  state : List (Slot × Int)
+
+def dumpNode (n : Node) : NodePickle :=
+  { isPrim := (match n with | .prim .. => true | .term .. => false), state := getstate n }
+
+def loadNode (p : NodePickle) : Node :=
+  setstate (if p.isPrim then .prim none none none none none else .term none none none none) p.state
+
+def Node.name : Node → Option Int
+  | .prim n .. => n
+  | .term n .. => n
+
+def Node.value : Node → Option Int
+  | .prim .. => none
+  | .term _ v .. => v
+
+/-- A primitive set as far as renaming goes: the node objects (index = identity; trees hold these
+very objects), the argument names, and `mapping` (an insertion-ordered dict name ↦ node). -/
+structure PSet where
+  nodes : List Node
+  arguments : List Int
+  mapping : List (Int × Nat)
+deriving DecidableEq, Repr
+
+def lookupI {β : Type} (k : Int) : List (Int × β) → Option β
+  | [] => none
+  | (k', v) :: r => if k' = k then some v else lookupI k r
+
+/-- `mapping.pop(key)` on the entries (`none`: KeyError). -/
+def popKey (k : Int) : List (Int × Nat) → Option (Nat × List (Int × Nat))
+  | [] => none
+  | (k', v) :: r =>
+    if k' = k then some (v, r)
+    else match popKey k r with
+      | none => none
+      | some (x, r') => some (x, (k', v) :: r')
+
+/-- `mapping[key] = node` (a present key keeps its position). -/
+def setKey (k : Int) (v : Nat) : List (Int × Nat) → List (Int × Nat)
+  | [] => [(k, v)]
+  | (k', v') :: r => if k' = k then (k, v) :: r else (k', v') :: setKey k v r
+
+/-- First loop of `renameArguments` (gp.py:347-351): every argument that is a key of `kargs` gets its
+new name in `arguments`, and its terminal is popped from `mapping` and remembered. -/
+def renamePass1 (kargs : List (Int × Int)) :
+    List Int → List (Int × Nat) → Option (List Int × List (Int × Nat) × List (Int × Nat))
+  | [], mp => some ([], mp, [])
+  | old :: rest, mp =>
+    match lookupI old kargs with
+    | none =>
+      match renamePass1 kargs rest mp with
+      | none => none
+      | some (args, mp', ren) => some (old :: args, mp', ren)
+    | some new =>
+      match popKey old mp with
+      | none => none
+      | some (node, mp1) =>
+        match renamePass1 kargs rest mp1 with
+        | none => none
+        | some (args, mp', ren) => some (new :: args, mp', (new, node) :: ren)
+
+/-- `terminal.value = new_name` (`none`: the object has no such slot). -/
+def setValue (nodes : List Node) (i : Nat) (x : Int) : Option (List Node) :=
+  match nodes[i]? with
+  | some (.term n _ r c) => some (nodes.set i (.term n (some x) r c))
+  | _ => none
+
+/-- Second loop (gp.py:352-354): `terminal.value = new_name; mapping[new_name] = terminal`. -/
+def renamePass2 : List (Int × Nat) → List Node → List (Int × Nat) → Option (List Node × List (Int × Nat))
+  | [], nodes, mp => some (nodes, mp)
+  | (new, i) :: ren, nodes, mp =>
+    match setValue nodes i new with
+    | none => none
+    | some nodes' => renamePass2 ren nodes' (setKey new i mp)
+
+def renameArguments (ps : PSet) (kargs : List (Int × Int)) : Option PSet :=
+  match renamePass1 kargs ps.arguments ps.mapping with
+  | none => none
+  | some (args, mp, ren) =>
+    match renamePass2 ren ps.nodes mp with
+    | none => none
+    | some (nodes, mp') => some { nodes := nodes, arguments := args, mapping := mp' }
+
+/-- A history of `renameArguments` calls. -/
+def renameHistory : PSet → List (List (Int × Int)) → Option PSet
+  | ps, [] => some ps
+  | ps, k :: ks =>
+    match renameArguments ps k with
+    | none => none
+    | some ps' => renameHistory ps' ks
+
+/-- The node objects of a tree (a tree is a list of node objects of the set). -/
+def treeNodes (ps : PSet) (tree : List Nat) : Option (List Node) := mapOpt (fun i => ps.nodes[i]?) tree
+
+/-- `pickle.loads(pickle.dumps(tree))`, node by node. -/
+def treeRoundTrip (ps : PSet) (tree : List Nat) : Option (List Node) :=
+  match treeNodes ps tree with
+  | none => none
+  | some ns => some (ns.map (fun n => loadNode (dumpNode n)))
+
+end Gp
 
 end Heap
